@@ -611,7 +611,50 @@ def gen_enc_indented(pi):
     return buf.getvalue(), intent, ["enc", "indented"] + [t for t in tags if t.startswith("payload:")]
 
 
-FAMILIES = [("enc", len(PAYLOADS), gen_enc), ("enc-indented", len(PAYLOADS), gen_enc_indented), ("shared", N_SHARED, gen_shared), ("shared-edge", len(EDGE_CASES), gen_shared_edge), ("attr", N_ATTR, gen_attr), ("opt", len(OPT_CASES), gen_opt), ("style", len(STYLE_CASES), gen_style)]
+
+# ------------------------------------------------------------------------------------------------
+# family multi: several sheets over ONE shared-string table as other producers write it: duplicate <si> entries,
+# entries no cell uses, sheets that use only the tail of the table (indexes must be taken literally)
+MULTI_CASES = ["dup-adjacent", "dup-far", "unused-head", "unused-middle+dup", "three-sheets-interleaved"]
+
+
+def gen_multi(i):
+    mc = MULTI_CASES[i]
+    p = Pkg()
+    tags = ["multi", "multi:" + mc]
+    if mc == "dup-adjacent":
+        texts = ["alpha", "same", "same", "omega", "tail"]
+    elif mc == "dup-far":
+        texts = ["same", "alpha", "beta", "same", "gamma", "same"]
+    elif mc == "unused-head":
+        texts = ["never used 1", "never used 2", "alpha", "beta", "gamma"]
+    elif mc == "unused-middle+dup":
+        texts = ["alpha", "never used", "alpha", "beta", "never used", "gamma"]
+    else:
+        texts = ["s1-a", "s2-a", "s3-a", "s1-b", "s2-b", "s3-b", "s1-a", "s2-a"]
+    for t in texts:
+        p.add_si("<si>%s</si>" % t_el(t))
+    nsheets = 3 if mc == "three-sheets-interleaved" else 2
+    sheets = []
+    for k in range(nsheets):
+        rows = ""
+        cells = {}
+        r = 1
+        for idx, t in enumerate(texts):
+            if t.startswith("never used"):
+                continue
+            # sheet k takes the entries whose index is congruent to k, plus the LAST entry (so every sheet reaches behind the duplicates)
+            if idx % nsheets == k or idx == len(texts) - 1:
+                rows += '<row r="%d"><c r="A%d" t="s"><v>%d</v></c><c r="B%d"><v>%d</v></c></row>' % (r, r, idx, r, idx)
+                cells[ckey(1, r)] = {"kind": "s", "value": t, "rich": False, "formula": ""}
+                cells[ckey(2, r)] = {"kind": "n", "value": str(idx), "bits": bits(idx), "formula": ""}
+                r += 1
+        name = "S%d" % (k + 1)
+        p.sheets.append((name, sheet_xml(rows), None, None))
+        sheets.append({"name": name, "cells": cells, "merges": [], "links": {}})
+    return p.build(), {"sheets": sheets, "defined_names": []}, tags
+
+FAMILIES = [("enc", len(PAYLOADS), gen_enc), ("enc-indented", len(PAYLOADS), gen_enc_indented), ("shared", N_SHARED, gen_shared), ("shared-edge", len(EDGE_CASES), gen_shared_edge), ("attr", N_ATTR, gen_attr), ("opt", len(OPT_CASES), gen_opt), ("style", len(STYLE_CASES), gen_style), ("multi", len(MULTI_CASES), gen_multi)]
 
 
 def total():
@@ -632,5 +675,14 @@ def case(i):
 def handle(h):
     if h.get("what") == "count":
         return {"ok": True, "count": total(), "families": [[n, c] for n, c, _ in FAMILIES]}
+    if h.get("family"):
+        # a case addressed by family name + index inside the family (used by checks other than C03)
+        off = 0
+        for name, n, _ in FAMILIES:
+            if name == h["family"]:
+                data, intent, tags, label = case(off + int(h["index"]))
+                return {"ok": True, "b64": base64.b64encode(data).decode("ascii"), "intent": intent, "tags": tags, "label": label, "family_size": n}
+            off += n
+        return {"ok": False, "error": "unknown family %r" % h["family"]}
     data, intent, tags, label = case(int(h["index"]))
     return {"ok": True, "b64": base64.b64encode(data).decode("ascii"), "intent": intent, "tags": tags, "label": label}
